@@ -1,10 +1,1359 @@
-//! Family `strs` — stub (replaced by the unit that owns this family).
+//! Family `strs` (C13): the string built-ins `find`, `replace`, `slice`, `len`, `split`, `join`,
+//! `to_uppercase`, `to_lowercase`, `trim`, `to_number`, called in-process.
+//!
+//! Protocol (one request per line, one answer per line; words separated by single spaces; every
+//! payload is the lowercase hex of the UTF-8 bytes, `-` = empty):
+//! ```text
+//! find <H> <N>              -> <index> | none | panic        byte offset (decimal) from builtins::find
+//! replace <H> <F> <T>       -> <hex> utf8=<0|1> | panic      builtins::replace
+//! slice <S> <bitsA> <bitsB> -> <hex> utf8=<0|1> | panic      bits = 16 hex digits of f64::to_bits
+//! len <S>                   -> <n>
+//! split <S> <P>             -> <hex>,<hex>,... utf8=<0|1>    pieces in order
+//! splitjoin <S> <P>         -> <hex>                         join(split(s, p), p)
+//! upper <S> | lower <S> | trim <S> -> <hex>
+//! tonumber <S>              -> <16 hex digits of to_bits> | nan
+//! hang                      -> timeout                       (test request for the watchdog only)
+//! ```
+//! Unknown operation, wrong number of words, or `slice` bounds that are not 16 hex digits →
+//! `bad-op`; otherwise a payload that is not hex (`[0-9a-fA-F]`, even length, or `-`) or not valid
+//! UTF-8 → `bad-utf8`. A panic inside a case → `panic`; a case that does not answer within the
+//! limit → `timeout` (see `run`).
+//!
+//! `run` also evaluates an implementation-level oracle that needs no model (naive search, Rust
+//! `std`, an independent re-computation of `slice`) and reports `ORACLE-FAIL <line> <what>` on
+//! stderr; a panic and a time-out are oracle failures too ("never fails").
+//!
+//! Sub-actions: `gen --seed S --n N [--long-bias]`, `enum --kind short|long|slice [--hmax H]
+//! [--nmax K]`, `run [--base B] [--limit-ms MS] [--max-timeouts M]`.
 
-pub fn main(_args: &[String]) -> i32 {
-    eprintln!("family strs: not built yet");
-    2
+use std::collections::BTreeMap;
+use std::io::{BufWriter, Stdout, Write};
+use std::process::{Command, Stdio};
+use std::sync::{Arc, Mutex};
+use std::time::{Duration, Instant};
+
+use naijascript::arena::{Arena, ArenaCow, ArenaString};
+use naijascript::builtins::{self, ArrayBuiltin, StringBuiltin};
+use naijascript::runtime::Value;
+
+use crate::util::{self, Out, Rng};
+
+pub fn main(args: &[String]) -> i32 {
+    match args.first().map(String::as_str) {
+        Some("gen") => generate(&args[1..]),
+        Some("enum") => enumerate(&args[1..]),
+        Some("run") => run(&args[1..]),
+        _ => {
+            eprintln!(
+                "usage: nvh strs gen --seed S --n N [--long-bias] | nvh strs enum --kind short|long|slice [--hmax H] [--nmax K] | nvh strs run [--base B] < requests"
+            );
+            2
+        }
+    }
 }
 
 /// Constants/tables of the compiled crate this family wants in `nvh dump-tables`
-/// (JSON key, JSON value text).
+/// (JSON key, JSON value text). `SIMD_THRESHOLD` is private and is extracted by regex elsewhere.
 pub fn dump_tables(_out: &mut Vec<(String, String)>) {}
+
+// ------------------------------------------------------------------------------------------------
+// run
+// ------------------------------------------------------------------------------------------------
+
+/// The arena the builtins allocate from is recreated every `ARENA_LINES` requests.
+const ARENA_BYTES: usize = 64 << 20;
+const ARENA_LINES: usize = 2000;
+
+/// State shared between the thread that runs the cases and the watchdog.
+struct Shared {
+    w: BufWriter<Stdout>,
+    /// Index (into the lines of this process) of the case that is running.
+    cur: usize,
+    /// When that case started.
+    started: Instant,
+    done: bool,
+    fails: u64,
+}
+
+fn strict_unhex(s: &str) -> Option<Vec<u8>> {
+    if s != "-" && !s.bytes().all(|b| b.is_ascii_hexdigit()) {
+        return None;
+    }
+    util::unhex(s)
+}
+
+fn payload(s: &str) -> Option<String> {
+    String::from_utf8(strict_unhex(s)?).ok()
+}
+
+fn bits(s: &str) -> Option<f64> {
+    if s.len() != 16 || !s.bytes().all(|b| b.is_ascii_hexdigit()) {
+        return None;
+    }
+    u64::from_str_radix(s, 16).ok().map(f64::from_bits)
+}
+
+fn show_idx(x: Option<usize>) -> String {
+    x.map_or("none".to_string(), |i| i.to_string())
+}
+
+fn naive_find(h: &[u8], n: &[u8]) -> Option<usize> {
+    if n.is_empty() {
+        return Some(0);
+    }
+    if n.len() > h.len() {
+        return None;
+    }
+    h.windows(n.len()).position(|w| w == n)
+}
+
+/// Saturating floor cast to the `isize` range, NaN ↦ 0, computed without `as isize`.
+fn to_idx(x: f64) -> i128 {
+    if x.is_nan() {
+        return 0;
+    }
+    let f = x.floor();
+    if f >= 9223372036854775808.0 {
+        isize::MAX as i128
+    } else if f < -9223372036854775808.0 {
+        isize::MIN as i128
+    } else {
+        f as i128
+    }
+}
+
+/// Independent re-computation of `slice` on code points.
+fn slice_spec(s: &str, a: f64, b: f64) -> String {
+    let chars: Vec<char> = s.chars().collect();
+    let len = chars.len() as i128;
+    let (mut a, mut b) = (to_idx(a), to_idx(b));
+    if a < 0 {
+        a += len;
+    }
+    if b < 0 {
+        b += len;
+    }
+    let (a, b) = (a.clamp(0, len), b.clamp(0, len));
+    if a >= b { String::new() } else { chars[a as usize..b as usize].iter().collect() }
+}
+
+fn words(line: &str) -> Vec<&str> {
+    line.trim_matches(|c: char| c.is_ascii_whitespace()).split(' ').filter(|w| !w.is_empty()).collect()
+}
+
+/// Answer one request: (answer, oracle failures).
+fn step(w: &[&str], arena: &Arena) -> (String, Vec<String>) {
+    let mut fails: Vec<String> = Vec::new();
+    let bad_op = || ("bad-op".to_string(), Vec::new());
+    let bad_utf8 = || ("bad-utf8".to_string(), Vec::new());
+    match w {
+        ["find", h, n] => {
+            let (Some(h), Some(n)) = (payload(h), payload(n)) else { return bad_utf8() };
+            let got = builtins::find(&h, &n);
+            let want = naive_find(h.as_bytes(), n.as_bytes());
+            let by_std = h.find(n.as_str());
+            if want != by_std {
+                fails.push(format!(
+                    "find: oracle inconsistent: naive {} str::find {}",
+                    show_idx(want),
+                    show_idx(by_std)
+                ));
+            }
+            if got != want {
+                fails.push(format!("find: got {} want {}", show_idx(got), show_idx(want)));
+            }
+            (show_idx(got), fails)
+        }
+        ["replace", h, f, t] => {
+            let (Some(h), Some(f), Some(t)) = (payload(h), payload(f), payload(t)) else { return bad_utf8() };
+            let out = builtins::replace(arena, &h, &f, &t);
+            let ob = out.as_bytes();
+            let valid = std::str::from_utf8(ob).is_ok();
+            let want = h.replace(f.as_str(), t.as_str());
+            if ob != want.as_bytes() {
+                fails.push(format!("replace: got {} want {}", util::hex(ob), util::hex(want.as_bytes())));
+            }
+            if !valid {
+                fails.push("replace: output is not valid UTF-8".to_string());
+            }
+            (format!("{} utf8={}", util::hex(ob), valid as u8), fails)
+        }
+        ["slice", s, a, b] => {
+            let (Some(a), Some(b)) = (bits(a), bits(b)) else { return bad_op() };
+            let Some(s) = payload(s) else { return bad_utf8() };
+            let out = StringBuiltin::slice(&s, a, b, arena);
+            let ob = out.as_bytes();
+            let valid = std::str::from_utf8(ob).is_ok();
+            let want = slice_spec(&s, a, b);
+            if ob != want.as_bytes() {
+                fails.push(format!("slice: got {} want {}", util::hex(ob), util::hex(want.as_bytes())));
+            }
+            if !valid {
+                fails.push("slice: output is not valid UTF-8".to_string());
+            }
+            (format!("{} utf8={}", util::hex(ob), valid as u8), fails)
+        }
+        ["len", s] => {
+            let Some(s) = payload(s) else { return bad_utf8() };
+            let got = StringBuiltin::len(&s);
+            let want = s.chars().count();
+            if got != want as f64 {
+                fails.push(format!("len: got {got} want {want}"));
+            }
+            (format!("{}", got as u64), fails)
+        }
+        ["split", s, p] => {
+            let (Some(s), Some(p)) = (payload(s), payload(p)) else { return bad_utf8() };
+            let pieces: Vec<ArenaString> = StringBuiltin::split(&s, &p, arena).collect();
+            let valid = pieces.iter().all(|x| std::str::from_utf8(x.as_bytes()).is_ok());
+            let want: Vec<&str> = s.split(p.as_str()).collect();
+            let same = pieces.len() == want.len()
+                && pieces.iter().zip(want.iter()).all(|(x, y)| x.as_bytes() == y.as_bytes());
+            let shown = pieces.iter().map(|x| util::hex(x.as_bytes())).collect::<Vec<_>>().join(",");
+            if !same {
+                let wshown = want.iter().map(|x| util::hex(x.as_bytes())).collect::<Vec<_>>().join(",");
+                fails.push(format!("split: got {shown} want {wshown}"));
+            }
+            if !valid {
+                fails.push("split: a piece is not valid UTF-8".to_string());
+            }
+            (format!("{shown} utf8={}", valid as u8), fails)
+        }
+        ["splitjoin", s, p] => {
+            let (Some(s), Some(p)) = (payload(s), payload(p)) else { return bad_utf8() };
+            let mut arr: Vec<Value, &Arena> = Vec::new_in(arena);
+            for piece in StringBuiltin::split(&s, &p, arena) {
+                arr.push(Value::Str(ArenaCow::Owned(piece)));
+            }
+            let joined = ArrayBuiltin::join(&arr, &p, arena);
+            let ob = joined.as_bytes();
+            if ob != s.as_bytes() {
+                fails.push(format!("splitjoin: got {} want {}", util::hex(ob), util::hex(s.as_bytes())));
+            }
+            if std::str::from_utf8(ob).is_err() {
+                fails.push("splitjoin: output is not valid UTF-8".to_string());
+            }
+            (util::hex(ob), fails)
+        }
+        [op @ ("upper" | "lower" | "trim"), s] => {
+            let Some(s) = payload(s) else { return bad_utf8() };
+            let out = match *op {
+                "upper" => StringBuiltin::to_uppercase(&s, arena),
+                "lower" => StringBuiltin::to_lowercase(&s, arena),
+                _ => StringBuiltin::trim(&s, arena),
+            };
+            let ob = out.as_bytes();
+            if std::str::from_utf8(ob).is_err() {
+                fails.push(format!("{op}: output is not valid UTF-8"));
+            }
+            (util::hex(ob), fails)
+        }
+        ["tonumber", s] => {
+            let Some(s) = payload(s) else { return bad_utf8() };
+            let x = StringBuiltin::to_number(&s);
+            (if x.is_nan() { "nan".to_string() } else { format!("{:016x}", x.to_bits()) }, fails)
+        }
+        ["hang"] => loop {
+            std::thread::sleep(Duration::from_millis(50));
+        },
+        _ => bad_op(),
+    }
+}
+
+fn run(args: &[String]) -> i32 {
+    util::silence_panics();
+    let base = util::opt_u64(args, "--base", 0);
+    let carry_fails = util::opt_u64(args, "--carry-fails", 0);
+    let timeouts = util::opt_u64(args, "--timeouts", 0);
+    let limit_ms = util::opt_u64(args, "--limit-ms", 10_000);
+    let max_timeouts = util::opt_u64(args, "--max-timeouts", 8);
+    let lines: Arc<Vec<String>> = Arc::new(util::stdin_lines());
+    let total = base + lines.len() as u64;
+
+    if timeouts >= max_timeouts && !lines.is_empty() {
+        // Bound the run: every time-out costs the full limit.
+        let mut out = Out::new();
+        eprintln!(
+            "ORACLE-FAIL {} non-termination: gave up after {timeouts} time-outs; the remaining {} lines are answered `skipped`",
+            base + 1,
+            lines.len()
+        );
+        for _ in lines.iter() {
+            out.line("skipped");
+        }
+        eprintln!("ORACLE-SUMMARY fails={} lines={total}", carry_fails + 1);
+        return 0;
+    }
+
+    let shared = Arc::new(Mutex::new(Shared {
+        w: BufWriter::new(std::io::stdout()),
+        cur: 0,
+        started: Instant::now(),
+        done: false,
+        fails: carry_fails,
+    }));
+
+    {
+        let shared = Arc::clone(&shared);
+        let lines = Arc::clone(&lines);
+        std::thread::spawn(move || watchdog(&shared, &lines, base, timeouts, limit_ms, max_timeouts));
+    }
+
+    for (ci, chunk) in lines.chunks(ARENA_LINES).enumerate() {
+        let arena = Arena::new(ARENA_BYTES).unwrap();
+        for (j, line) in chunk.iter().enumerate() {
+            let i = ci * ARENA_LINES + j;
+            let lineno = base + i as u64 + 1;
+            let w = words(line);
+            let r = util::catch(|| step(&w, &arena));
+            // From here on the watchdog cannot take this case over (it needs the lock).
+            let mut g = shared.lock().unwrap();
+            match r {
+                Ok((ans, oracle)) => {
+                    let _ = writeln!(g.w, "{ans}");
+                    for msg in oracle {
+                        g.fails += 1;
+                        eprintln!("ORACLE-FAIL {lineno} {}", msg.replace('\n', " "));
+                    }
+                }
+                Err(msg) => {
+                    let msg = msg.replace('\n', " ");
+                    let _ = writeln!(g.w, "panic");
+                    g.fails += 1;
+                    eprintln!("PANIC {lineno} {msg}");
+                    eprintln!("ORACLE-FAIL {lineno} panic: {msg}");
+                }
+            }
+            g.cur = i + 1;
+            g.started = Instant::now();
+        }
+    }
+
+    let mut g = shared.lock().unwrap();
+    g.done = true;
+    let _ = g.w.flush();
+    eprintln!("ORACLE-SUMMARY fails={} lines={total}", g.fails);
+    0
+}
+
+/// Wakes every 200 ms. When the running case has exceeded the limit: answer `timeout` for it,
+/// hand the remaining lines to a fresh process (`strs run --base <next>`), wait, exit 0. The lock
+/// is never released after the decision, so the stuck thread cannot write any more.
+fn watchdog(shared: &Mutex<Shared>, lines: &Arc<Vec<String>>, base: u64, timeouts: u64, limit_ms: u64, max_timeouts: u64) {
+    let limit = Duration::from_millis(limit_ms);
+    loop {
+        std::thread::sleep(Duration::from_millis(200));
+        let mut g = shared.lock().unwrap();
+        if g.done {
+            return;
+        }
+        if g.cur >= lines.len() || g.started.elapsed() <= limit {
+            continue;
+        }
+        let i = g.cur;
+        let _ = writeln!(g.w, "timeout");
+        let _ = g.w.flush();
+        let secs = if limit_ms % 1000 == 0 { format!("{}", limit_ms / 1000) } else { format!("{:.1}", limit_ms as f64 / 1000.0) };
+        eprintln!("ORACLE-FAIL {} non-termination: no answer within {secs} s", base + i as u64 + 1);
+        let fails = g.fails + 1;
+        let next = i + 1;
+        if next >= lines.len() {
+            eprintln!("ORACLE-SUMMARY fails={fails} lines={}", base + lines.len() as u64);
+            std::process::exit(0);
+        }
+        let exe = match std::env::current_exe() {
+            Ok(e) => e,
+            Err(e) => {
+                eprintln!("strs run: cannot locate the executable to continue after a time-out: {e}");
+                std::process::exit(3);
+            }
+        };
+        let child = Command::new(exe)
+            .args(["strs", "run"])
+            .args(["--base", &(base + next as u64).to_string()])
+            .args(["--carry-fails", &fails.to_string()])
+            .args(["--timeouts", &(timeouts + 1).to_string()])
+            .args(["--limit-ms", &limit_ms.to_string()])
+            .args(["--max-timeouts", &max_timeouts.to_string()])
+            .stdin(Stdio::piped())
+            .spawn();
+        let mut child = match child {
+            Ok(c) => c,
+            Err(e) => {
+                eprintln!("strs run: cannot respawn after a time-out: {e}");
+                std::process::exit(3);
+            }
+        };
+        {
+            let mut si = BufWriter::new(child.stdin.take().unwrap());
+            for l in &lines[next..] {
+                let _ = writeln!(si, "{l}");
+            }
+            let _ = si.flush();
+        }
+        let _ = child.wait();
+        std::process::exit(0);
+    }
+}
+
+// ------------------------------------------------------------------------------------------------
+// gen
+// ------------------------------------------------------------------------------------------------
+
+type Alpha = &'static [&'static str];
+type W = Vec<&'static str>;
+
+const AB: Alpha = &["a", "b"];
+const ABC: Alpha = &["a", "b", "c"];
+const CD: Alpha = &["c", "d"];
+const MB: Alpha = &["a", "é", "ß", "世", "🌎", "σ"];
+
+const FORCED: &[usize] = &[0, 1, 2, 3, 4, 15, 16, 17, 18, 19, 23, 24, 31, 32, 33, 40, 64, 65];
+const FORCED_LONG: &[usize] = &[17, 18, 19, 23, 24, 31, 32, 33, 40, 64, 65];
+
+/// Byte sequences that are NOT valid UTF-8 (spliced into a payload at a character boundary).
+const INVALID_SEQS: &[&[u8]] = &[
+    &[0xC3],                   // truncated 2-byte
+    &[0xE4, 0xB8],             // truncated 3-byte
+    &[0xF0, 0x9F, 0x8C],       // truncated 4-byte
+    &[0x80],                   // lone continuation
+    &[0xBF],                   // lone continuation
+    &[0xC0, 0x80],             // overlong NUL
+    &[0xC1, 0xBF],             // overlong 2-byte
+    &[0xE0, 0x80, 0x80],       // overlong 3-byte
+    &[0xE0, 0x9F, 0xBF],       // overlong 3-byte (largest)
+    &[0xF0, 0x80, 0x80, 0x80], // overlong 4-byte
+    &[0xF0, 0x8F, 0xBF, 0xBF], // overlong 4-byte (largest)
+    &[0xED, 0xA0, 0x80],       // surrogate U+D800
+    &[0xED, 0xBF, 0xBF],       // surrogate U+DFFF
+    &[0xF4, 0x90, 0x80, 0x80], // U+110000
+    &[0xF5, 0x80, 0x80, 0x80], // F5 lead
+    &[0xF8, 0x88, 0x80, 0x80, 0x80],
+    &[0xFF],
+    &[0xFE],
+    &[0xE4, 0xB8, 0x41], // 3-byte lead, one continuation, then ASCII
+    &[0xC3, 0x28],       // 2-byte lead then ASCII
+];
+
+/// Valid boundary encodings (so that the model's predicate is not too strict either).
+const VALID_EDGE_SEQS: &[&[u8]] = &[
+    &[0x00],
+    &[0x7F],
+    &[0xC2, 0x80],             // U+0080
+    &[0xDF, 0xBF],             // U+07FF
+    &[0xE0, 0xA0, 0x80],       // U+0800
+    &[0xED, 0x9F, 0xBF],       // U+D7FF
+    &[0xEE, 0x80, 0x80],       // U+E000
+    &[0xEF, 0xBF, 0xBF],       // U+FFFF
+    &[0xF0, 0x90, 0x80, 0x80], // U+10000
+    &[0xF4, 0x8F, 0xBF, 0xBF], // U+10FFFF
+];
+
+const CASE_SPECIAL: &[char] = &[
+    'é', 'É', 'ñ', 'Ñ', 'ü', 'Ü', 'ß', 'α', 'Α', 'σ', 'ς', 'Σ', 'я', 'Я', '世', '🌎', '\u{130}', '\u{1c6}', '\u{1c5}',
+    '\u{fb01}',
+];
+
+/// White space and (the last four) look-alikes that are not white space.
+const TRIM_EDGE: &[char] = &[
+    ' ', '\t', '\n', '\r', '\u{b}', '\u{c}', '\u{85}', '\u{a0}', '\u{1680}', '\u{2000}', '\u{200a}', '\u{2028}',
+    '\u{2029}', '\u{202f}', '\u{205f}', '\u{3000}', '\u{200b}', '\u{feff}', '\u{1c}', '\u{180e}',
+];
+const TRIM_CORE: &[char] = &['a', 'b', 'z', ' ', '\t', 'é', '世', '\u{a0}', '\u{200b}'];
+
+const NUM_SPECIAL: &[&str] = &[
+    "inf",
+    "Infinity",
+    "infinity",
+    "-inf",
+    "+inf",
+    "-Infinity",
+    "nan",
+    "NaN",
+    "-nan",
+    "+nan",
+    "",
+    ".",
+    "+",
+    "-",
+    "1.",
+    ".5",
+    "-.5",
+    "+.5e1",
+    "1e",
+    "1e+",
+    "e5",
+    ".e5",
+    "0x10",
+    " 1",
+    "1 ",
+    "1_0",
+    "١",
+    "0",
+    "-0",
+    "+0",
+    "0.0",
+    "-0.0",
+    "00",
+    "007",
+    "1e5",
+    "1E5",
+    "1e-5",
+    "1e+5",
+    "1e05",
+    "9007199254740992",
+    "9007199254740993",
+    "9007199254740994",
+    "9007199254740995",
+    "2.2250738585072014e-308",
+    "2.2250738585072011e-308",
+    "2.225073858507201e-308",
+    "1e-400",
+    "1e400",
+    "-1e400",
+    "4.9e-324",
+    "5e-324",
+    "2.4703282292062327e-324",
+    "2.4703282292062328e-324",
+    "2.47e-324",
+    "1.7976931348623157e308",
+    "1.7976931348623158e308",
+    "1.7976931348623159e308",
+    "1.8e308",
+    "0.1",
+    "0.2",
+    "0.30000000000000004",
+    "123456789012345678901234567890e-10",
+    "1e23",
+    "8.5e22",
+    "1.5",
+    "1,5",
+    "1.5.2",
+    "--1",
+    "+-1",
+    "1e1.5",
+    "1f",
+    "1.0f64",
+    "１",
+];
+
+fn word(rng: &mut Rng, alpha: Alpha, n: usize) -> W {
+    (0..n).map(|_| *rng.pick(alpha)).collect()
+}
+
+/// A word of exactly `nbytes` bytes (every alphabet contains the 1-byte "a").
+fn word_bytes(rng: &mut Rng, alpha: Alpha, nbytes: usize) -> W {
+    let mut w = W::new();
+    let mut left = nbytes;
+    while left > 0 {
+        let u = *rng.pick(alpha);
+        let u = if u.len() <= left { u } else { "a" };
+        left -= u.len();
+        w.push(u);
+    }
+    w
+}
+
+fn cat(w: &[&str]) -> String {
+    w.concat()
+}
+
+fn rep(u: &[&'static str], k: usize) -> W {
+    let mut w = W::with_capacity(u.len() * k);
+    for _ in 0..k {
+        w.extend_from_slice(u);
+    }
+    w
+}
+
+/// Change one unit of `w` into a different one (near miss).
+fn flip_at(rng: &mut Rng, alpha: Alpha, w: &mut W, pos: usize) {
+    if pos >= w.len() {
+        return;
+    }
+    let old = w[pos];
+    for _ in 0..8 {
+        let u = *rng.pick(alpha);
+        if u != old {
+            w[pos] = u;
+            return;
+        }
+    }
+    w[pos] = if old == "a" { "b" } else { "a" };
+}
+
+fn flip(rng: &mut Rng, alpha: Alpha, w: &mut W) {
+    if !w.is_empty() {
+        let pos = rng.below(w.len() as u64) as usize;
+        flip_at(rng, alpha, w, pos);
+    }
+}
+
+fn pick_alpha(rng: &mut Rng) -> Alpha {
+    match rng.below(10) {
+        0..=5 => AB,
+        6..=7 => ABC,
+        _ => MB,
+    }
+}
+
+fn ur(rng: &mut Rng, lo: usize, hi: usize) -> usize {
+    if hi <= lo { lo } else { lo + rng.below((hi - lo + 1) as u64) as usize }
+}
+
+/// (1) random haystack, needle = substring of it, possibly with one unit changed.
+fn s_random(rng: &mut Rng, alpha: Alpha, long: bool) -> (W, W) {
+    let hl = if long { ur(rng, 20, 70) } else { ur(rng, 0, 40) };
+    let h = word(rng, alpha, hl);
+    if hl == 0 {
+        let k = ur(rng, 0, 2);
+        return (h, word(rng, alpha, k));
+    }
+    let nl = if long { ur(rng, 17, hl.min(40)) } else { ur(rng, 0, hl.min(24)) };
+    let st = ur(rng, 0, hl - nl);
+    let mut n = h[st..st + nl].to_vec();
+    if rng.chance(35, 100) {
+        flip(rng, alpha, &mut n);
+    }
+    (h, n)
+}
+
+/// (2) periodic and near-periodic words.
+fn s_periodic(rng: &mut Rng, alpha: Alpha, long: bool) -> (W, W) {
+    let ul = ur(rng, 1, 5);
+    let u = word(rng, alpha, ul);
+    let vl = ur(rng, 0, 2);
+    let v = word(rng, alpha, vl);
+    let jmin = if long { 17usize.div_ceil(ul) } else { 0 };
+    let j = jmin + ur(rng, 0, 6);
+    let k = if rng.chance(4, 5) { j + ur(rng, 0, 7) } else { j.saturating_sub(1) };
+    let r = ur(rng, 0, ul - 1);
+    let mut h = rep(&u, k);
+    match rng.below(6) {
+        0 => {}
+        1 => h.extend_from_slice(&v),
+        2 => {
+            let mut x = v.clone();
+            x.extend_from_slice(&h);
+            h = x;
+        }
+        3 => {
+            let again = h.clone();
+            h.extend_from_slice(&v);
+            h.extend_from_slice(&again);
+        }
+        4 => flip(rng, alpha, &mut h),
+        _ => h.extend_from_slice(&u[..r]),
+    }
+    let mut n = rep(&u, j);
+    match rng.below(6) {
+        0 => {}
+        1 => n.extend_from_slice(&v),
+        2 => {
+            let big = rep(&u, j + 1);
+            n = big[r..r + j * ul].to_vec();
+        }
+        3 => flip(rng, alpha, &mut n),
+        4 => {
+            let mut x = v.clone();
+            x.extend_from_slice(&n);
+            n = x;
+        }
+        _ => n.extend_from_slice(&u[..r]),
+    }
+    (h, n)
+}
+
+/// (3) needle at the very end, at the very start, twice overlapping, twice apart.
+fn s_placed(rng: &mut Rng, alpha: Alpha, long: bool) -> (W, W) {
+    let nl = if long { ur(rng, 17, 40) } else { ur(rng, 1, 20) };
+    let j1 = ur(rng, 0, 30);
+    let j2 = ur(rng, 0, 30);
+    let junk1 = word(rng, alpha, j1);
+    let junk2 = word(rng, alpha, j2);
+    match rng.below(4) {
+        0 => {
+            let n = word(rng, alpha, nl);
+            let mut h = junk1;
+            h.extend_from_slice(&n);
+            (h, n)
+        }
+        1 => {
+            let n = word(rng, alpha, nl);
+            let mut h = n.clone();
+            h.extend_from_slice(&junk1);
+            (h, n)
+        }
+        2 => {
+            // needle = w x w, haystack = junk w x w x w junk: two overlapping occurrences
+            let wl = ur(rng, 1, (nl / 2).max(1));
+            let xl = nl.saturating_sub(2 * wl);
+            let w = word(rng, alpha, wl);
+            let x = word(rng, alpha, xl);
+            let mut n = w.clone();
+            n.extend_from_slice(&x);
+            n.extend_from_slice(&w);
+            let mut h = junk1;
+            h.extend_from_slice(&n);
+            h.extend_from_slice(&x);
+            h.extend_from_slice(&w);
+            h.extend_from_slice(&junk2);
+            (h, n)
+        }
+        _ => {
+            let n = word(rng, alpha, nl);
+            let mut h = junk1;
+            h.extend_from_slice(&n);
+            h.extend_from_slice(&junk2);
+            h.extend_from_slice(&n);
+            (h, n)
+        }
+    }
+}
+
+/// (4) needle longer than the haystack; equal to the haystack.
+fn s_size(rng: &mut Rng, alpha: Alpha, long: bool) -> (W, W) {
+    let hl = if long { ur(rng, 17, 40) } else { ur(rng, 0, 20) };
+    let h = word(rng, alpha, hl);
+    let el = ur(rng, 1, 3);
+    let extra = word(rng, alpha, el);
+    match rng.below(4) {
+        0 => {
+            let n = h.clone();
+            (h, n)
+        }
+        1 => {
+            let mut n = h.clone();
+            n.extend_from_slice(&extra);
+            (h, n)
+        }
+        2 => {
+            let mut n = extra;
+            n.extend_from_slice(&h);
+            (h, n)
+        }
+        _ => {
+            let nl = hl + ur(rng, 1, 5);
+            let n = word(rng, alpha, nl);
+            (h, n)
+        }
+    }
+}
+
+/// (5) needle length (in bytes) forced from a list of boundary values; haystack needle + 0..=40.
+fn s_forced(rng: &mut Rng, alpha: Alpha, long: bool) -> (W, W) {
+    let l = *rng.pick(if long { FORCED_LONG } else { FORCED });
+    let n = word_bytes(rng, alpha, l);
+    let d = ur(rng, 0, 40);
+    match rng.below(4) {
+        0 | 1 => {
+            let d1 = ur(rng, 0, d);
+            let mut h = word_bytes(rng, alpha, d1);
+            h.extend_from_slice(&n);
+            let tail = word_bytes(rng, alpha, d - d1);
+            h.extend_from_slice(&tail);
+            (h, n)
+        }
+        2 => {
+            let d1 = ur(rng, 0, d);
+            let mut near = n.clone();
+            flip(rng, alpha, &mut near);
+            let mut h = word_bytes(rng, alpha, d1);
+            h.extend_from_slice(&near);
+            let tail = word_bytes(rng, alpha, d - d1);
+            h.extend_from_slice(&tail);
+            (h, n)
+        }
+        _ => (word_bytes(rng, alpha, l + d), n),
+    }
+}
+
+/// (6) the two-way tier specifically: needles over {a,b} of 17..=24 bytes.
+fn s_longtier(rng: &mut Rng) -> (W, W) {
+    let nl = ur(rng, 17, 24);
+    let n = word(rng, AB, nl);
+    let append = rng.chance(1, 2);
+    let mut h: W;
+    match rng.below(7) {
+        0 => {
+            let k = ur(rng, 0, 30);
+            h = rep(&["c"], k);
+            h.extend_from_slice(&n);
+            return (h, n);
+        }
+        1 => {
+            let k = ur(rng, 0, 30);
+            h = word(rng, CD, k);
+            h.extend_from_slice(&n);
+            let t = ur(rng, 0, 5);
+            let tail = word(rng, CD, t);
+            h.extend_from_slice(&tail);
+            return (h, n);
+        }
+        2 => {
+            let mut near = n.clone();
+            flip_at(rng, AB, &mut near, nl - 1);
+            let m = ur(rng, 1, 4);
+            h = rep(&near, m);
+        }
+        3 => {
+            h = n[1..].to_vec();
+            h.extend_from_slice(&n[..nl - 1]);
+        }
+        4 => {
+            let hl = ur(rng, 30, 80);
+            h = word(rng, AB, hl);
+        }
+        5 => {
+            let m = ur(rng, 1, 4);
+            h = rep(&n[..nl - 1], m);
+        }
+        _ => {
+            let mut near = n.clone();
+            flip(rng, AB, &mut near);
+            h = near;
+            h.extend_from_slice(&n);
+            return (h, n);
+        }
+    }
+    if append {
+        h.extend_from_slice(&n);
+    }
+    (h, n)
+}
+
+fn pair(rng: &mut Rng, long_bias: bool) -> (String, String) {
+    let alpha = pick_alpha(rng);
+    let long = if long_bias { rng.chance(17, 20) } else { rng.chance(1, 5) };
+    let (h, n) = match rng.below(100) {
+        0..=29 => s_random(rng, alpha, long),
+        30..=49 => s_periodic(rng, alpha, long),
+        50..=61 => s_placed(rng, alpha, long),
+        62..=69 => s_size(rng, alpha, long),
+        70..=87 => s_forced(rng, alpha, long),
+        _ => s_longtier(rng),
+    };
+    (cat(&h), cat(&n))
+}
+
+fn gen_replace(rng: &mut Rng, long_bias: bool) -> (String, String, String) {
+    let (mut h, mut f) = pair(rng, long_bias);
+    match rng.below(10) {
+        0..=2 => h = format!("{h}{h}"),
+        3 => h = format!("{h}-{h}"),
+        _ => {}
+    }
+    if rng.chance(8, 100) {
+        f = String::new();
+    }
+    let to = match rng.below(7) {
+        0 => String::new(),
+        1 => "x".to_string(),
+        2 => "ab".to_string(),
+        3 => f.clone(),
+        4 => format!("{f}{f}"),
+        5 => "é世".to_string(),
+        _ => "🌎".to_string(),
+    };
+    (h, f, to)
+}
+
+fn gen_split(rng: &mut Rng) -> (String, String) {
+    match rng.below(10) {
+        0..=5 => {
+            let sep = *rng.pick(&["", ",", "ab", "aa", "世", "a", ", ", "🌎é"]);
+            let alpha: Alpha = match rng.below(4) {
+                0 => AB,
+                1 => &["a", "b", ","],
+                2 => MB,
+                _ => &["x", "y", "世"],
+            };
+            let np = ur(rng, 0, 6);
+            let mut pieces: Vec<String> = Vec::new();
+            for _ in 0..np {
+                let l = ur(rng, 0, 3);
+                pieces.push(cat(&word(rng, alpha, l)));
+            }
+            let mut s = pieces.join(sep);
+            if rng.chance(1, 5) {
+                s = format!("{sep}{s}");
+            }
+            if rng.chance(1, 5) {
+                s = format!("{s}{sep}");
+            }
+            if rng.chance(1, 10) {
+                s = format!("{s}{sep}{sep}");
+            }
+            (s, sep.to_string())
+        }
+        6 => ((*rng.pick(&["aaaa", "aaaaa", "aaa", "aa", "a", "baaab", "aabaa"])).to_string(), "aa".to_string()),
+        7 => {
+            let alpha = pick_alpha(rng);
+            let l = ur(rng, 0, 3);
+            let s = cat(&word(rng, alpha, l));
+            let e = ur(rng, 1, 3);
+            let p = format!("{s}{}", cat(&word(rng, alpha, e)));
+            (s, p)
+        }
+        8 => {
+            let alpha = pick_alpha(rng);
+            let l = ur(rng, 0, 5);
+            let s = cat(&word(rng, alpha, l));
+            (s.clone(), s)
+        }
+        _ => pair(rng, false),
+    }
+}
+
+const NAN_BITS: &[u64] = &[
+    0x7ff8_0000_0000_0000,
+    0xfff8_0000_0000_0000,
+    0x7ff0_0000_0000_0001,
+    0xfff0_0000_0000_0001,
+    0x7ff8_0000_0000_0001,
+    0x7fff_ffff_ffff_ffff,
+    0xffff_ffff_ffff_ffff,
+];
+
+fn slice_bound(rng: &mut Rng, len: usize) -> u64 {
+    let len = len as f64;
+    let x: f64 = match rng.below(100) {
+        0..=39 => rng.range(-15, 15) as f64,
+        40..=49 => *rng.pick(&[
+            0.5,
+            -0.5,
+            1.5,
+            -1.5,
+            2.9999,
+            -0.0001,
+            0.9999999999999999,
+            -0.9999999999999999,
+            1.0000000000000002,
+            3.5,
+            -2.5,
+            -1e-300,
+        ]),
+        50..=64 => *rng.pick(&[len + 1.0, len - 1.0, len, -len, -len - 1.0, -len + 1.0, len + 0.5, -len - 0.5]),
+        65..=72 => return *rng.pick(NAN_BITS),
+        _ => *rng.pick(&[
+            0.0,
+            -0.0,
+            f64::INFINITY,
+            f64::NEG_INFINITY,
+            1e18,
+            -1e18,
+            9.223372036854775e18,
+            -9.223372036854775e18,
+            9.223372036854776e18,
+            -9.223372036854776e18,
+            -9.223372036854778e18,
+            1e19,
+            -1e19,
+            1e300,
+            -1e300,
+            f64::MAX,
+            f64::MIN,
+            f64::MIN_POSITIVE,
+            -f64::MIN_POSITIVE,
+            5e-324,
+            -5e-324,
+            4294967296.0,
+            -4294967296.0,
+            2147483648.0,
+            -2147483649.0,
+            9007199254740992.0,
+            -9007199254740992.0,
+            1.8446744073709552e19,
+            -1.8446744073709552e19,
+        ]),
+    };
+    x.to_bits()
+}
+
+fn gen_case_string(rng: &mut Rng) -> String {
+    let l = ur(rng, 0, 12);
+    let mut s = String::new();
+    for _ in 0..l {
+        if rng.chance(1, 2) {
+            s.push(char::from(0x20 + rng.below(0x5f) as u8));
+        } else {
+            s.push(*rng.pick(CASE_SPECIAL));
+        }
+    }
+    s
+}
+
+fn gen_trim_string(rng: &mut Rng) -> String {
+    let mut s = String::new();
+    for _ in 0..ur(rng, 0, 3) {
+        s.push(*rng.pick(TRIM_EDGE));
+    }
+    for _ in 0..ur(rng, 0, 6) {
+        s.push(*rng.pick(TRIM_CORE));
+    }
+    for _ in 0..ur(rng, 0, 3) {
+        s.push(*rng.pick(TRIM_EDGE));
+    }
+    s
+}
+
+fn digits(rng: &mut Rng, n: usize) -> String {
+    (0..n).map(|_| char::from(b'0' + rng.below(10) as u8)).collect()
+}
+
+fn gen_number_string(rng: &mut Rng) -> String {
+    match rng.below(10) {
+        0..=3 => (*rng.pick(NUM_SPECIAL)).to_string(),
+        4..=8 => {
+            let mut s = (*rng.pick(&["", "", "+", "-"])).to_string();
+            let il = ur(rng, 0, 5);
+            s.push_str(&digits(rng, il));
+            if rng.chance(2, 5) {
+                s.push('.');
+                let fl = ur(rng, 0, 5);
+                s.push_str(&digits(rng, fl));
+            }
+            if rng.chance(3, 10) {
+                s.push(*rng.pick(&['e', 'E']));
+                s.push_str(rng.pick(&["", "+", "-"]));
+                let el = ur(rng, 1, 3);
+                s.push_str(&digits(rng, el));
+            }
+            s
+        }
+        _ => {
+            let l = ur(rng, 20, 40);
+            let mut s = (*rng.pick(&["", "-"])).to_string();
+            let d = digits(rng, l);
+            if rng.chance(1, 3) {
+                let p = ur(rng, 0, l);
+                s.push_str(&d[..p]);
+                s.push('.');
+                s.push_str(&d[p..]);
+            } else {
+                s.push_str(&d);
+            }
+            if rng.chance(1, 3) {
+                s.push('e');
+                s.push_str(rng.pick(&["", "-", "+"]));
+                let el = ur(rng, 1, 3);
+                s.push_str(&digits(rng, el));
+            }
+            s
+        }
+    }
+}
+
+struct Req {
+    op: &'static str,
+    pay: Vec<Vec<u8>>,
+    bits: Vec<u64>,
+}
+
+impl Req {
+    fn new(op: &'static str, pay: &[&str]) -> Req {
+        Req { op, pay: pay.iter().map(|p| p.as_bytes().to_vec()).collect(), bits: Vec::new() }
+    }
+    fn line(&self) -> String {
+        let mut s = self.op.to_string();
+        for p in &self.pay {
+            s.push(' ');
+            s.push_str(&util::hex(p));
+        }
+        for b in &self.bits {
+            s.push_str(&format!(" {b:016x}"));
+        }
+        s
+    }
+}
+
+/// Insert `seq` into `p` at a character boundary.
+fn splice(rng: &mut Rng, p: &mut Vec<u8>, seq: &[u8]) {
+    let bounds: Vec<usize> = match std::str::from_utf8(p) {
+        Ok(s) => (0..=s.len()).filter(|&i| s.is_char_boundary(i)).collect(),
+        Err(_) => vec![p.len()],
+    };
+    let at = *rng.pick(&bounds);
+    let tail = p.split_off(at);
+    p.extend_from_slice(seq);
+    p.extend_from_slice(&tail);
+}
+
+#[derive(Default)]
+struct GenStats {
+    ops: BTreeMap<&'static str, u64>,
+    long_needle: u64,
+    multibyte: u64,
+    nontrivial: u64,
+    invalid_utf8: u64,
+    find_hit: u64,
+    find_miss: u64,
+    total: u64,
+}
+
+/// Non-trivial, by kind:
+/// find — needle ≥ 2 bytes, haystack at least as long, and either the first occurrence is at an
+/// index > 0 or there is none although the needle's first byte occurs in the haystack;
+/// replace / split / splitjoin — the pattern occurs (or is empty with a non-empty subject);
+/// slice — the expected result is non-empty or a bound is not an integer of magnitude < 2^31;
+/// len — a multi-byte character is present; upper / lower / trim — output differs from input;
+/// tonumber — the result is not NaN. Requests with an invalid payload count as trivial.
+fn account(st: &mut GenStats, r: &Req) {
+    *st.ops.entry(r.op).or_insert(0) += 1;
+    st.total += 1;
+    if r.pay.iter().any(|p| p.iter().any(|&b| b >= 0x80)) {
+        st.multibyte += 1;
+    }
+    let strs: Option<Vec<&str>> = r.pay.iter().map(|p| std::str::from_utf8(p).ok()).collect();
+    let Some(p) = strs else {
+        st.invalid_utf8 += 1;
+        return;
+    };
+    let nontrivial = match r.op {
+        "find" => {
+            let (h, n) = (p[0], p[1]);
+            if n.len() >= 17 {
+                st.long_needle += 1;
+            }
+            let at = h.find(n);
+            if at.is_some() {
+                st.find_hit += 1;
+            } else {
+                st.find_miss += 1;
+            }
+            n.len() >= 2
+                && h.len() >= n.len()
+                && match at {
+                    Some(i) => i > 0,
+                    None => h.as_bytes().contains(&n.as_bytes()[0]),
+                }
+        }
+        "replace" => {
+            if p[1].len() >= 17 {
+                st.long_needle += 1;
+            }
+            if p[1].is_empty() { !p[0].is_empty() } else { p[0].contains(p[1]) }
+        }
+        "split" | "splitjoin" => {
+            if p[1].is_empty() {
+                !p[0].is_empty()
+            } else {
+                p[0].contains(p[1])
+            }
+        }
+        "slice" => {
+            let (a, b) = (f64::from_bits(r.bits[0]), f64::from_bits(r.bits[1]));
+            let plain = |x: f64| x.fract() == 0.0 && x.abs() < 2147483648.0;
+            !slice_spec(p[0], a, b).is_empty() || !plain(a) || !plain(b)
+        }
+        "len" => !p[0].is_ascii(),
+        "upper" => p[0].chars().flat_map(char::to_uppercase).collect::<String>() != p[0],
+        "lower" => p[0].chars().flat_map(char::to_lowercase).collect::<String>() != p[0],
+        "trim" => p[0].trim() != p[0],
+        "tonumber" => p[0].parse::<f64>().is_ok_and(|x| !x.is_nan()),
+        _ => false,
+    };
+    if nontrivial {
+        st.nontrivial += 1;
+    }
+}
+
+fn generate(args: &[String]) -> i32 {
+    let seed = util::opt_u64(args, "--seed", 1);
+    let n = util::opt_u64(args, "--n", 1000);
+    let long_bias = util::flag(args, "--long-bias");
+    let mut rng = Rng::new(seed ^ 0xC13);
+    let mut out = Out::new();
+    let mut st = GenStats::default();
+    for _ in 0..n {
+        let mut r = match rng.below(100) {
+            0..=44 => {
+                let (h, nd) = pair(&mut rng, long_bias);
+                Req::new("find", &[&h, &nd])
+            }
+            45..=64 => {
+                let (h, f, t) = gen_replace(&mut rng, long_bias);
+                Req::new("replace", &[&h, &f, &t])
+            }
+            65..=74 => {
+                let l = ur(&mut rng, 0, 12);
+                let s = cat(&word(&mut rng, MB, l));
+                let mut r = Req::new("slice", &[&s]);
+                r.bits.push(slice_bound(&mut rng, l));
+                r.bits.push(slice_bound(&mut rng, l));
+                r
+            }
+            75..=79 => {
+                if rng.chance(1, 5) {
+                    // valid boundary encodings: the model's UTF-8 predicate must accept these
+                    let l = ur(&mut rng, 0, 3);
+                    let mut p = cat(&word(&mut rng, MB, l)).into_bytes();
+                    let seq = *rng.pick(VALID_EDGE_SEQS);
+                    splice(&mut rng, &mut p, seq);
+                    Req { op: "len", pay: vec![p], bits: Vec::new() }
+                } else {
+                    let alpha = pick_alpha(&mut rng);
+                    let l = ur(&mut rng, 0, 20);
+                    let alpha = if rng.chance(1, 2) { MB } else { alpha };
+                    let s = cat(&word(&mut rng, alpha, l));
+                    Req::new("len", &[&s])
+                }
+            }
+            80..=87 => {
+                let (s, p) = gen_split(&mut rng);
+                Req::new("split", &[&s, &p])
+            }
+            88..=94 => {
+                let (s, p) = gen_split(&mut rng);
+                Req::new("splitjoin", &[&s, &p])
+            }
+            _ => match rng.below(4) {
+                0 => Req::new("upper", &[&gen_case_string(&mut rng)]),
+                1 => Req::new("lower", &[&gen_case_string(&mut rng)]),
+                2 => Req::new("trim", &[&gen_trim_string(&mut rng)]),
+                _ => Req::new("tonumber", &[&gen_number_string(&mut rng)]),
+            },
+        };
+        // ≈1 %: one payload is made invalid UTF-8 (ties the model's predicate to `from_utf8`)
+        if rng.chance(1, 100) {
+            let k = rng.below(r.pay.len() as u64) as usize;
+            let seq = *rng.pick(INVALID_SEQS);
+            splice(&mut rng, &mut r.pay[k], seq);
+        }
+        account(&mut st, &r);
+        out.line(&r.line());
+    }
+    drop(out);
+    let g = |k: &str| st.ops.get(k).copied().unwrap_or(0);
+    eprintln!(
+        "GEN-SUMMARY find={} replace={} slice={} len={} split={} splitjoin={} upper={} lower={} trim={} tonumber={} long_needle={} multibyte={} nontrivial={} invalid_utf8={} find_hit={} find_miss={} total={}",
+        g("find"),
+        g("replace"),
+        g("slice"),
+        g("len"),
+        g("split"),
+        g("splitjoin"),
+        g("upper"),
+        g("lower"),
+        g("trim"),
+        g("tonumber"),
+        st.long_needle,
+        st.multibyte,
+        st.nontrivial,
+        st.invalid_utf8,
+        st.find_hit,
+        st.find_miss,
+        st.total
+    );
+    0
+}
+
+// ------------------------------------------------------------------------------------------------
+// enum
+// ------------------------------------------------------------------------------------------------
+
+/// All words over `alpha` of length 0..=maxlen, by length, then in alphabet order.
+fn all_words(alpha: &[&str], maxlen: usize) -> Vec<String> {
+    let mut res = vec![String::new()];
+    let mut level = vec![String::new()];
+    for _ in 0..maxlen {
+        let mut next = Vec::with_capacity(level.len() * alpha.len());
+        for w in &level {
+            for a in alpha {
+                next.push(format!("{w}{a}"));
+            }
+        }
+        res.extend(next.iter().cloned());
+        level = next;
+    }
+    res
+}
+
+fn enumerate(args: &[String]) -> i32 {
+    let mut out = Out::new();
+    let mut count = 0u64;
+    match util::opt(args, "--kind") {
+        Some("short") => {
+            let hmax = util::opt_u64(args, "--hmax", 12) as usize;
+            let nmax = util::opt_u64(args, "--nmax", 6) as usize;
+            let hs: Vec<(usize, String)> = all_words(AB, hmax).iter().map(|w| (w.len(), util::hex(w.as_bytes()))).collect();
+            let ns: Vec<(usize, String)> = all_words(AB, nmax).iter().map(|w| (w.len(), util::hex(w.as_bytes()))).collect();
+            for (hl, h) in &hs {
+                for (nl, n) in &ns {
+                    out.line(&format!("find {h} {n}"));
+                    count += 1;
+                    if *nl >= 1 && *hl <= 8 {
+                        out.line(&format!("replace {h} {n} 78"));
+                        count += 1;
+                    }
+                }
+            }
+        }
+        Some("long") => {
+            let hmax = util::opt_u64(args, "--hmax", 40) as usize;
+            let us: Vec<String> = all_words(AB, 4).into_iter().filter(|u| !u.is_empty()).collect();
+            let vs = all_words(AB, 2);
+            // needle -> the first (shortest) period word that produced it
+            let mut needles: BTreeMap<String, String> = BTreeMap::new();
+            for l in 17..=24usize {
+                for u in &us {
+                    for v in &vs {
+                        let body: String = u.chars().cycle().take(l - v.len()).collect();
+                        let needle = format!("{body}{v}");
+                        needles.entry(needle).or_insert_with(|| u.clone());
+                    }
+                }
+            }
+            let hx = |s: &str| util::hex(s.as_bytes());
+            for (n, u) in &needles {
+                let l = n.len();
+                let nh = hx(n);
+                let mut hays: Vec<String> = vec![n.clone()];
+                for x in ["a", "b", "c"] {
+                    hays.push(format!("{x}{n}"));
+                    hays.push(format!("{n}{x}"));
+                }
+                for j in 1..=l {
+                    hays.push(format!("{}{n}", "c".repeat(j)));
+                }
+                let mut pos = vec![0, 1, l / 3, l / 2, l - 2, l - 1];
+                pos.dedup();
+                for p in pos {
+                    let mut near = n.clone().into_bytes();
+                    near[p] = if near[p] == b'a' { b'b' } else { b'a' };
+                    hays.push(format!("{}{n}", String::from_utf8(near).unwrap()));
+                }
+                hays.push(format!("{}{n}", &n[1..]));
+                for m in 1..=(hmax / u.len()) {
+                    hays.push(u.repeat(m));
+                }
+                for h in &hays {
+                    out.line(&format!("find {} {nh}", hx(h)));
+                    count += 1;
+                }
+                out.line(&format!("replace {} {nh} 78", hx(&format!("{n}-{n}"))));
+                count += 1;
+            }
+        }
+        Some("slice") => {
+            let mut strs = all_words(&["a", "é", "世"], 3);
+            strs.extend(["aé世a", "世世éa", "éaaé"].iter().map(|s| s.to_string()));
+            for s in &strs {
+                let sh = util::hex(s.as_bytes());
+                for a in -6..=6i32 {
+                    for b in -6..=6i32 {
+                        out.line(&format!("slice {sh} {:016x} {:016x}", f64::from(a).to_bits(), f64::from(b).to_bits()));
+                        count += 1;
+                    }
+                }
+            }
+        }
+        _ => {
+            eprintln!("usage: nvh strs enum --kind short|long|slice [--hmax H] [--nmax K]");
+            return 2;
+        }
+    }
+    drop(out);
+    eprintln!("ENUM-SUMMARY lines={count}");
+    0
+}
